@@ -104,7 +104,13 @@ type vRunCtx struct {
 func (r *vRunCtx) cancel(deadline bool) { r.cancelFn(deadline) }
 
 func vNewRunCtx(label string) *vRunCtx {
-	switch vChoice(label+".ctxKind", 3) {
+	// param deadlineCtx=1 adds a fourth kind: a real context.WithTimeout whose deadline lies far in
+	// the (virtual) future and which is cancelled explicitly through its cancel function
+	switch vChoice(label+".ctxKind", 3+vParam("deadlineCtx", 0)) {
+	case 3:
+		vCover("deadline-context-cancelled-explicitly")
+		c, cancel := context.WithTimeout(context.Background(), 1<<50)
+		return &vRunCtx{Context: c, cancelFn: func(bool) { cancel() }}
 	case 0:
 		c := vNewCtx()
 		return &vRunCtx{Context: c, cancelFn: c.cancel}
